@@ -28,6 +28,7 @@ pub broadcast group group_bv { lemma_wrapping_sub, lemma_mask9, lemma_mask10, le
 verus! {
 //@include common.rs
 //@include std_int.rs
+//@include symtab.rs
 
 //@item src/symbol.rs enum Register
 //@item src/symbol.rs enum Flag
@@ -38,6 +39,11 @@ verus! {
 //@item src/symbol.rs struct Span derive=Clone,Copy
 //@item src/air.rs enum AirStmt derive=
 //@item src/air.rs struct AsmLine derive=
+//@item src/debugger/breakpoint.rs struct Breakpoints derive=
+//@item src/debugger/breakpoint.rs struct Breakpoint derive=Clone,Copy
+//@item src/air.rs struct Air derive=
+//@include bp_spec.rs
+//@include air_spec.rs
 
 //@include enc_spec.rs
 
@@ -54,7 +60,67 @@ impl ImmediateOrReg {
 //@end
 }
 
+impl Breakpoints {
+//@fn src/debugger/breakpoint.rs "impl Breakpoints" new ret=r props=C11 assumed
+//@contract Breakpoints_new.c
+//@end
+}
+
+impl Clone for Label {
+    #[verifier::external_body]
+    fn clone(&self) -> (r: Label) ensures r == *self { unimplemented!() }
+}
+impl Label {
+//@fn src/symbol.rs "impl Label" filled ret=r props=C01,C04 assumed
+//@symtab
+//@contract Label_filled.c
+//@end
+}
+
+impl Air {
+//@fn src/air.rs "impl Air" new ret=r props=C01,C19
+//@contract Air_new.c
+//@end
+//@fn src/air.rs "impl Air" set_orig ret=r props=C04
+//@contract Air_set_orig.c
+//@end
+//@fn src/air.rs "impl Air" orig ret=r props=C01
+//@contract Air_orig.c
+//@end
+//@fn src/air.rs "impl Air" len ret=r props=C01
+//@contract Air_len.c
+//@end
+//@fn src/air.rs "impl Air" add_stmt props=C01,C05,C17
+//@contract Air_add_stmt.c
+//@end
+//@fn src/air.rs "impl Air" backpatch ret=r props=C01,C04,C07
+//@symtab
+//@sub <<<for stmt in self.ast.iter_mut() {
+            stmt.backpatch(sym)?;
+        }>>> ==> <<<let mut verif_i: usize = 0;
+        while verif_i < self.ast.len()
+            invariant
+                sym@ == old(sym)@,
+                self.ast@.len() == old(self).ast@.len(),
+                self.orig == old(self).orig, self.breakpoints == old(self).breakpoints, self.src == old(self).src,
+                forall|i: int| 0 <= i < verif_i ==> backpatched(old(self).ast@[i], self.ast@[i], sym@) && stmt_labels_filled(self.ast@[i].stmt),
+                forall|i: int| verif_i <= i < self.ast@.len() ==> self.ast@[i] == old(self).ast@[i],
+            decreases self.ast.len() - verif_i,
+        {
+            let stmt = &mut self.ast[verif_i]; // R12: `for x in v.iter_mut()` as an index loop
+            stmt.backpatch(sym)?;
+            verif_i += 1;
+        }>>>
+//@contract Air_backpatch.c
+//@end
+}
+
 impl AsmLine {
+//@fn src/air.rs "impl AsmLine" backpatch ret=r props=C01,C04,C07
+//@symtab
+//@contract AsmLine_backpatch.c
+//@end
+
 //@fn src/air.rs "impl AsmLine" new ret=r props=C01
 //@contract AsmLine_new.c
 //@end
